@@ -20,29 +20,133 @@ def saves (h : Hist) : List (Nat × Nat) → Hist
   | [] => h
   | (ts, v) :: r => saves ((h.save ts v).getD h) r
 
+
+theorem getD_writeSlot_self (l : List Nat) (i v : Nat) : (writeSlot l i v).getD i 0 = v := by
+  unfold writeSlot
+  split
+  · simp [List.getD_eq_getElem?_getD, *]
+  · simp [List.getD_eq_getElem?_getD, List.getElem?_append]
+    grind
+
+theorem getD_writeSlot_ne (l : List Nat) (i j v : Nat) (h : j ≠ i) :
+    (writeSlot l i v).getD j 0 = l.getD j 0 := by
+  unfold writeSlot
+  split
+  · simp [List.getD_eq_getElem?_getD, List.getElem?_set, *]; grind
+  · simp [List.getD_eq_getElem?_getD, List.getElem?_append, List.getElem?_replicate]
+    grind
+
+theorem load_in (h : Hist) (ts : Nat) (h1 : h.origin ≤ ts) (h2 : ts - h.origin < maxHistorySlots) :
+    h.load ts = some (h.slots.getD (ts - h.origin) 0) := by
+  unfold Hist.load
+  rw [if_neg (by omega), if_neg (by omega)]
+
+/-- Shape of a successful save. -/
+theorem save_some (h h' : Hist) (ts v : Nat) (hs : h.save ts v = some h') :
+    h.origin ≤ ts ∧ ts - h.origin < maxHistorySlots ∧
+      ((h' = h ∧ h.slots.getD (ts - h.origin) 0 = v) ∨
+       (h.slots.getD (ts - h.origin) 0 = 0 ∧
+        h' = { h with slots := writeSlot h.slots (ts - h.origin) v })) := by
+  unfold Hist.save at hs
+  by_cases h1 : ts < h.origin
+  · rw [if_pos h1] at hs; simp at hs
+  rw [if_neg h1] at hs
+  by_cases h2 : ts - h.origin ≥ maxHistorySlots
+  · rw [if_pos h2] at hs; simp at hs
+  rw [if_neg h2, load_in h ts (by omega) (by omega)] at hs
+  refine ⟨by omega, by omega, ?_⟩
+  simp only at hs
+  by_cases h3 : h.slots.getD (ts - h.origin) 0 = v
+  · rw [if_pos h3] at hs
+    left
+    simp only [Option.some.injEq] at hs
+    exact ⟨hs.symm, h3⟩
+  · rw [if_neg h3] at hs
+    by_cases h4 : h.slots.getD (ts - h.origin) 0 ≠ 0
+    · rw [if_pos h4] at hs; simp at hs
+    · rw [if_neg h4] at hs
+      right
+      simp only [Option.some.injEq] at hs
+      exact ⟨by omega, hs.symm⟩
+
+/-- A save changes only its own slot. -/
+theorem save_frame (h h' : Hist) (ts v ts' : Nat) (hs : h.save ts v = some h') (hne : ts' ≠ ts) :
+    h'.load ts' = h.load ts' ∧ h'.origin = h.origin := by
+  obtain ⟨h1, h2, h3⟩ := save_some h h' ts v hs
+  rcases h3 with ⟨rfl, _⟩ | ⟨_, rfl⟩
+  · exact ⟨rfl, rfl⟩
+  · refine ⟨?_, rfl⟩
+    unfold Hist.load
+    simp only
+    split
+    · rfl
+    · split
+      · rfl
+      · rw [getD_writeSlot_ne _ _ _ _ (by omega)]
+
 theorem c09_save_then_load (h h' : Hist) (ts v : Nat) (hs : h.save ts v = some h') :
     h'.load ts = some v := by
-  sorry
+  obtain ⟨h1, h2, h3⟩ := save_some h h' ts v hs
+  rcases h3 with ⟨rfl, e⟩ | ⟨_, rfl⟩
+  · rw [load_in _ _ h1 h2, e]
+  · have := load_in ⟨h.origin, writeSlot h.slots (ts - h.origin) v⟩ ts h1 h2
+    rw [this]
+    simp only [getD_writeSlot_self]
+
+/-- A non-zero reading survives any single later save attempt. -/
+theorem save_preserves (h h' : Hist) (ts v ts' v' : Nat) (hl : h.load ts = some v) (hv : v ≠ 0)
+    (hs : h.save ts' v' = some h') : h'.load ts = some v := by
+  by_cases hne : ts = ts'
+  · subst hne
+    obtain ⟨h1, h2, h3⟩ := save_some h h' ts v' hs
+    rw [load_in _ _ h1 h2] at hl
+    simp only [Option.some.injEq] at hl
+    rcases h3 with ⟨rfl, _⟩ | ⟨e, _⟩
+    · rw [load_in _ _ h1 h2, hl]
+    · omega
+  · rw [(save_frame h h' ts' v' ts hs hne).1, hl]
+
+theorem saves_stable (h : Hist) (ts v : Nat) (hv : v ≠ 0) (hl : h.load ts = some v)
+    (later : List (Nat × Nat)) : (saves h later).load ts = some v := by
+  induction later generalizing h with
+  | nil => exact hl
+  | cons p r ih =>
+    obtain ⟨ts', v'⟩ := p
+    unfold saves
+    cases hs : h.save ts' v' with
+    | none => exact ih h hl
+    | some h'' => exact ih h'' (save_preserves h h'' ts v ts' v' hl hv hs)
 
 /-- A stored non-zero reading is returned unchanged by every later read, whatever is saved afterwards. -/
 theorem c09_store_stable (h h' : Hist) (ts v : Nat) (hv : v ≠ 0) (hs : h.save ts v = some h')
     (later : List (Nat × Nat)) : (saves h' later).load ts = some v := by
-  sorry
+  exact saves_stable h' ts v hv (c09_save_then_load h h' ts v hs) later
 
 /-- An occupied slot refuses a different value and the store is unchanged. -/
 theorem c09_no_overwrite (h : Hist) (ts v w : Nat) (hl : h.load ts = some v) (hv : v ≠ 0) (hw : w ≠ v) :
     h.save ts w = none := by
-  sorry
+  cases hs : h.save ts w with
+  | none => rfl
+  | some h' =>
+    obtain ⟨h1, h2, h3⟩ := save_some h h' ts w hs
+    rw [load_in _ _ h1 h2] at hl
+    simp only [Option.some.injEq] at hl
+    rcases h3 with ⟨_, e⟩ | ⟨e, _⟩ <;> omega
 
 /-- Timeslots before the origin and beyond the addressable range are refused. -/
 theorem c09_range (h : Hist) (ts v : Nat) (hr : ts < h.origin ∨ ts - h.origin ≥ maxHistorySlots) :
     h.save ts v = none := by
-  sorry
+  unfold Hist.save
+  rcases hr with hr | hr
+  · rw [if_pos hr]
+  · split
+    · rfl
+    · rfl
 
 /-- A save changes only its own slot. -/
 theorem c09_frame (h h' : Hist) (ts v ts' : Nat) (hs : h.save ts v = some h') (hne : ts' ≠ ts) :
     h'.load ts' = h.load ts' ∧ h'.origin = h.origin := by
-  sorry
+  exact save_frame h h' ts v ts' hs hne
 
 /-- The byte offset of an accepted slot fits 32 bits (so the Go `uint32`
 arithmetic `4*(1+ts-origin)` is exact): tie `save_offset`/`load_offset`. -/
@@ -60,18 +164,74 @@ def emitted (h : Hist) (ts : Nat) : List Nat → List Nat
     | some h' => e :: emitted h' ts r
     | none => emitted h ts r
 
+/-- Once a non-zero value is stored for the slot, only candidates with those low 32 bits are emitted. -/
+theorem emitted_occupied (h : Hist) (ts m : Nat) (hm : m ≠ 0) (hl : h.load ts = some m)
+    (cands : List Nat) : ∀ x ∈ emitted h ts cands, x % 2^32 = m := by
+  induction cands with
+  | nil => simp [emitted]
+  | cons e r ih =>
+    intro x hx
+    unfold emitted at hx
+    cases hs : h.save ts (e % 2^32) with
+    | none =>
+      rw [hs] at hx
+      exact ih x hx
+    | some h' =>
+      rw [hs] at hx
+      obtain ⟨h1, h2, h3⟩ := save_some h h' ts _ hs
+      rw [load_in _ _ h1 h2] at hl
+      simp only [Option.some.injEq] at hl
+      rcases h3 with ⟨rfl, e1⟩ | ⟨e1, _⟩
+      · simp only [List.mem_cons] at hx
+        rcases hx with rfl | hx
+        · omega
+        · exact ih x hx
+      · omega
+
 /-- All emitted values that the server acts on agree modulo 2^32 with the first accepted reading. -/
 theorem c09_no_equivocation_partial (h : Hist) (ts : Nat) (cands : List Nat) (a b : Nat)
     (ha : a ∈ emitted h ts cands) (hb : b ∈ emitted h ts cands)
     (ha0 : a % 2^32 ≠ 0) (hb0 : b % 2^32 ≠ 0) : a % 2^32 = b % 2^32 := by
-  sorry
+  induction cands generalizing h with
+  | nil => simp [emitted] at ha
+  | cons e r ih =>
+    unfold emitted at ha hb
+    cases hs : h.save ts (e % 2^32) with
+    | none =>
+      rw [hs] at ha hb
+      exact ih h ha hb
+    | some h' =>
+      rw [hs] at ha hb
+      simp only [List.mem_cons] at ha hb
+      have hl := c09_save_then_load h h' ts _ hs
+      by_cases he : e % 2^32 = 0
+      · have ha' : a ∈ emitted h' ts r := by
+          rcases ha with rfl | ha
+          · exact absurd he ha0
+          · exact ha
+        have hb' : b ∈ emitted h' ts r := by
+          rcases hb with rfl | hb
+          · exact absurd he hb0
+          · exact hb
+        exact ih h' ha' hb'
+      · have key := emitted_occupied h' ts _ he hl r
+        have ea : a % 2^32 = e % 2^32 := by
+          rcases ha with rfl | ha
+          · rfl
+          · exact key a ha
+        have eb : b % 2^32 = e % 2^32 := by
+          rcases hb with rfl | hb
+          · rfl
+          · exact key b hb
+        rw [ea, eb]
 
 /-- ... hence identical when the readings fit 32 signed bits (two's complement in 64 bits). -/
 theorem c09_no_equivocation_fits (h : Hist) (ts : Nat) (cands : List Nat) (a b : Nat)
     (ha : a ∈ emitted h ts cands) (hb : b ∈ emitted h ts cands)
     (ha0 : a % 2^32 ≠ 0) (hb0 : b % 2^32 ≠ 0)
     (fa : a < 2^31 ∨ 2^64 - 2^31 ≤ a ∧ a < 2^64) (fb : b < 2^31 ∨ 2^64 - 2^31 ≤ b ∧ b < 2^64) : a = b := by
-  sorry
+  have := c09_no_equivocation_partial h ts cands a b ha hb ha0 hb0
+  omega
 
 /-- The unrestricted statement is false: 500 and 4294967796 are both emitted for one slot (F17). -/
 theorem c09_mod32_witness :
